@@ -513,17 +513,18 @@ impl SvgElement {
     /// Implemented as a method rather than a `From` impl to keep private
     fn into_bytesstart(self) -> BytesStart<'static> {
         let mut bs = BytesStart::new(self.name);
+        // Attribute values are held unescaped; the `(&str, &str)` conversion escapes them.
         for (k, v) in &self.attrs {
-            bs.push_attribute(Attribute::from((k.as_bytes(), v.as_bytes())));
+            bs.push_attribute(Attribute::from((k.as_str(), v.as_str())));
         }
         if !self.classes.is_empty() {
             bs.push_attribute(Attribute::from((
-                "class".as_bytes(),
+                "class",
                 self.classes
                     .into_iter()
                     .collect::<Vec<String>>()
                     .join(" ")
-                    .as_bytes(),
+                    .as_str(),
             )));
         }
         bs
